@@ -808,17 +808,39 @@ impl MemoryLoc {
                     if self.offset != 0 {
                         addr = builder.ins().iadd_imm(addr, self.offset as i64);
                     }
-                    builder.emit_small_memory_copy(
-                        module.target_config(),
-                        addr,
-                        val,
-                        // this has to be stride for some reason, it can't be size
-                        ty.stride() as u64,
-                        ty.align() as u8,
-                        ty.align() as u8,
-                        true,
-                        MemFlags::trusted(),
-                    )
+                    // only the bytes of the value itself are copied: the padding up to the
+                    // stride may belong to whatever is stored directly behind the destination.
+                    // `emit_small_memory_copy` wants a size that is a multiple of the alignment,
+                    // so the unaligned tail is copied by hand
+                    let size = ty.size();
+                    let align = ty.align();
+                    let head = size - size % align;
+                    if head > 0 {
+                        builder.emit_small_memory_copy(
+                            module.target_config(),
+                            addr,
+                            val,
+                            head as u64,
+                            align as u8,
+                            align as u8,
+                            true,
+                            MemFlags::trusted(),
+                        );
+                    }
+                    let mut off = head as i32;
+                    for width in [4, 2, 1] {
+                        while off + width <= size as i32 {
+                            let bytes = builder.ins().load(
+                                cranelift::codegen::ir::Type::int_with_byte_size(width as u16)
+                                    .unwrap(),
+                                MemFlags::trusted(),
+                                val,
+                                off,
+                            );
+                            builder.ins().store(MemFlags::trusted(), bytes, addr, off);
+                            off += width;
+                        }
+                    }
                 }
                 Location::Stack(slot) => {
                     // be very explicit to cranelift what we are doing here
@@ -826,7 +848,7 @@ impl MemoryLoc {
                     let mut off = 0;
                     macro_rules! mem_cpy_loop {
                         ($width:expr) => {
-                            while (off + $width) <= (ty.stride() as i32 / $width) * $width {
+                            while (off + $width) <= ty.size() as i32 {
                                 let bytes = builder.ins().load(
                                     cranelift::codegen::ir::Type::int_with_byte_size($width)
                                         .unwrap(),
